@@ -174,7 +174,9 @@ def judgeC14 (o : AppObs) : Verdict :=
 
 def judgeC15 (o : AppObs) : Verdict :=
   let p := o.payload
-  if o.tcp ∧ o.forced.isNone then pass false else
+  -- over TCP only the first segment of a flow that the published stream reference identifies as STUN (or a later
+  -- segment of a flow already identified as STUN, `forced`) is a STUN exchange
+  if o.tcp ∧ o.forced.isNone ∧ refStream p ≠ some ID_STUN then pass false else
   match parseStun p with
   | none => pass false
   | some m =>
